@@ -228,7 +228,7 @@ package part
 //@   property C01 C02 C06 C11 C12 C17
 //@   flag nosafety
 //@   requires t != nil && t.prevTxn != nil
-//@   ensures @starts-at-reserved-id result != nil && result.txnID == t.nextTxnID && result.root == t.root && result.oldRoot == t.root && result.size == t.size && result.rootWatch == t.rootWatch && !result.dirty
+//@   ensures @starts-at-reserved-id result != nil && result.txnID == t.nextTxnID && result.root == t.root && result.oldRoot == t.root && result.size == t.size && result.rootWatch == t.rootWatch && result.prevTxn == t.prevTxn && !result.dirty
 //@   ensures @starts-with-no-recorded-watches result.watches != nil ==> (forall c ptr :: !has(result.watches, c))
 
 //@ func (*Txn).Clone
@@ -437,3 +437,82 @@ package part
 //@   ensures @watches-emptied forall c ptr :: !has(txn.watches, c)
 //@   loop 1 invariant @count 0 <= $n && $n <= len(txn.watches) && txn.watches == old(txn.watches) && txn.dirty == old(txn.dirty) && txn.rootWatch == old(txn.rootWatch)
 //@   loop 1 invariant @untouched-before-first $n == 0 ==> unchanged(CH_closed)
+
+// ---------------------------------------------------------------------------
+// Decoding (C17): a decoded Set or Map is built from an EMPTY tree, whatever the receiver held
+// before - the transaction the decoded elements are inserted into starts from a tree with no
+// root and size 0. (The JSON/YAML decoders are outside the repository: assumed not to touch
+// part's own structures.)
+//@ package json
+//@ func (*Decoder).*
+//@   trusted
+//@   modifies B_* E_* MD_* MV_* MN_* H_json_* H_bytes_* H_reflect_*
+//@ func NewDecoder
+//@   trusted
+//@   pure
+//@ package bytes
+//@ func NewReader
+//@   trusted
+//@   pure
+//@ package yaml
+//@ func (*Node).Decode
+//@   trusted
+//@   modifies B_* E_* MD_* MV_* MN_* H_yaml_* H_reflect_*
+//@ package part
+
+//@ func lookupKeyType
+//@   trusted
+//@   pure
+//@   maypanic
+//@ func New
+//@   property C17
+//@   flag nosafety
+//@   ensures @empty result.root == nil && result.size == 0 && result.prevTxn != nil && fresh(result.prevTxn) && fresh(result.rootWatch)
+//@ func (*Set).ensureTree
+//@   property C17
+//@   flag nosafety
+//@   requires s != nil
+//@   ensures @creates-an-empty-tree-only-when-there-is-none s.hasTree && (old(s.hasTree) ==> s.tree == old(s.tree)) && (!old(s.hasTree) ==> s.tree.root == nil && s.tree.size == 0 && s.tree.prevTxn != nil)
+//@ func (*Map).ensureTree
+//@   property C17
+//@   flag nosafety
+//@   requires m != nil
+//@   ensures @creates-an-empty-tree-only-when-there-is-none m.hasTree && (old(m.hasTree) ==> m.tree == old(m.tree)) && (!old(m.hasTree) ==> m.tree.root == nil && m.tree.size == 0 && m.tree.prevTxn != nil)
+//@ func (*Map).keyToBytes
+//@   property C17
+//@   flag nosafety
+//@   maypanic
+//@   flag dyncall.bytesFromKeyFunc=pure
+//@   modifies H_part_Map_bytesFromKeyFunc
+//@ func (*Set).UnmarshalJSON
+//@   property C17
+//@   flag nosafety
+//@   maypanic
+//@   atcall (*Tree).Txn@1 requires @decodes-into-an-empty-tree $0.root == nil && $0.size == 0
+//@   flag dyncall.toBytes=pure
+//@   flag dyncall.bytesFromKeyFunc=pure
+//@   loop 1 invariant txn != nil && txn.prevTxn != nil
+//@ func (*Set).UnmarshalYAML
+//@   property C17
+//@   flag nosafety
+//@   maypanic
+//@   atcall (*Tree).Txn@1 requires @decodes-into-an-empty-tree $0.root == nil && $0.size == 0
+//@   flag dyncall.toBytes=pure
+//@   flag dyncall.bytesFromKeyFunc=pure
+//@   loop 1 invariant txn != nil && txn.prevTxn != nil
+//@ func (*Map).UnmarshalJSON
+//@   property C17
+//@   flag nosafety
+//@   maypanic
+//@   atcall (*Tree).Txn@1 requires @decodes-into-an-empty-tree $0.root == nil && $0.size == 0
+//@   flag dyncall.toBytes=pure
+//@   flag dyncall.bytesFromKeyFunc=pure
+//@   loop 1 invariant txn != nil && txn.prevTxn != nil
+//@ func (*Map).UnmarshalYAML
+//@   property C17
+//@   flag nosafety
+//@   maypanic
+//@   atcall (*Tree).Txn@1 requires @decodes-into-an-empty-tree $0.root == nil && $0.size == 0
+//@   flag dyncall.toBytes=pure
+//@   flag dyncall.bytesFromKeyFunc=pure
+//@   loop 1 invariant txn != nil && txn.prevTxn != nil
